@@ -37,6 +37,7 @@ var verifDir = func() string {
 	}
 	return "/verif"
 }()
+
 const repoDir = "/repo"
 
 func usage() {
@@ -223,6 +224,16 @@ func runProperty(id, tier string, keep bool, only string, replayPath string) int
 		if br.r.Exit != 0 {
 			fmt.Fprintln(os.Stderr, br.r.String())
 			return inconclusive("cannot build %s from the working tree", br.what)
+		}
+	}
+	// second compiler variant: when the tree is not a fixed point of the self-hosted compiler
+	// (fc/*.fo and fc/gen_*.go disagree), also check the compiler rebuilt from the regenerated files
+	if _, ok := env["VERIF_FC"]; ok && os.Getenv("VERIF_NO_FCB") == "" {
+		if fcb, note := buildFCB(scratch, snap, env["VERIF_FC"], bin); fcb != "" {
+			env["VERIF_FCB"] = fcb
+			fmt.Fprintln(os.Stderr, "note: fc/*.fo and fc/gen_*.go are not a fixed point; every fc-based check also runs the compiler rebuilt from the regenerated files")
+		} else if note != "" {
+			fmt.Fprintln(os.Stderr, "note:", note)
 		}
 	}
 	gocache := ""
@@ -710,4 +721,63 @@ func writeManifest() int {
 
 func notBuiltReason(id string) string {
 	return "check not built yet (construction order in DESIGN.md section 8); the technique applies and the property will be claimed once its check is green on the unchanged tree"
+}
+
+// buildFCB regenerates fc/gen_*.go from fc/*.fo with the compiler built from the checked-in gen
+// files (the recipe of fc/fc_all.sh). If the result differs from the checked-in files it builds a
+// second compiler from the regenerated ones and returns its path.
+func buildFCB(scratch, snap, fcA, bin string) (string, string) {
+	regen := filepath.Join(scratch, "regen")
+	if err := pipeline.CopyTree(filepath.Join(snap, "fc"), filepath.Join(regen, "fc")); err != nil {
+		return "", "second compiler variant: " + err.Error()
+	}
+	if err := pipeline.CopyTree(filepath.Join(snap, "pkg"), filepath.Join(regen, "pkg")); err != nil {
+		return "", "second compiler variant: " + err.Error()
+	}
+	b, err := os.ReadFile(filepath.Join(snap, "fc", "fc_all.sh"))
+	if err != nil {
+		return "", ""
+	}
+	var args []string
+	for _, line := range strings.Split(string(b), "\n") {
+		line = strings.TrimSpace(line)
+		if strings.HasPrefix(line, "./fc ") {
+			for _, f := range strings.Fields(line)[1:] {
+				args = append(args, strings.ReplaceAll(f, "$PKG_INFO", "../pkg/pkg_all.foi"))
+			}
+		}
+	}
+	if len(args) == 0 {
+		return "", ""
+	}
+	r := pipeline.RunFC(fcA, filepath.Join(regen, "fc"), 5*time.Minute, args...)
+	if r.Exit != 0 || r.TimedOut {
+		return "", "second compiler variant: fc fails on its own sources (C04 reports this)"
+	}
+	gens, _ := filepath.Glob(filepath.Join(regen, "fc", "gen_*.go"))
+	if fr := pipeline.Gofmt(gens...); fr.Exit != 0 {
+		return "", "second compiler variant: gofmt rejects the regenerated compiler (C04 reports this)"
+	}
+	same := true
+	for _, g := range gens {
+		x, _ := os.ReadFile(g)
+		y, err := os.ReadFile(filepath.Join(snap, "fc", filepath.Base(g)))
+		if err != nil || string(x) != string(y) {
+			same = false
+		}
+	}
+	if same {
+		os.RemoveAll(regen)
+		return "", ""
+	}
+	// the regenerated tree needs the module files and the other packages beside it
+	for _, d := range []string{"go.mod", "go.sum"} {
+		pipeline.CopyFile(filepath.Join(snap, "fc", d), filepath.Join(regen, "fc", d), 0o644)
+	}
+	out := filepath.Join(bin, "fcB")
+	br := pipeline.BuildTool(regen, "fc", out)
+	if br.Exit != 0 {
+		return "", "second compiler variant: the regenerated compiler does not build (C04 reports this)"
+	}
+	return out, ""
 }
